@@ -415,6 +415,94 @@ impl Prop for P {
         prop_oneof![6 => eval, 1 => mal].boxed()
     }
 
+    /// Every opcode, in every operand position, fed each kind of interval that
+    /// overflow produces from a FINITE box: x in [1e30, 2e30], y in [-1e30,
+    /// 1e30] gives x*x = [inf, inf], y*y = [0, inf], x*x - y*y = [NaN, inf]
+    /// and y*y - x*x = [-inf, NaN] in the JIT (half-NaN, finding F14; the NaN
+    /// interval in the interpreter), -(x*x) = [-inf, -inf], y*y*y = [-inf, inf],
+    /// x*x - x*x = NaN.  The native code calls back into Rust for most unary
+    /// functions; an interval constructor that panics there aborts the process.
+    fn fixed_cases(_tier: Tier) -> Vec<Case> {
+        let mut cases = vec![];
+        let boxes: Vec<(Fl, Fl)> = vec![
+            (Fl(1e30), Fl(2e30)),
+            (Fl(-1e30), Fl(1e30)),
+            (Fl(0.25), Fl(0.5)),
+            (Fl(0.0), Fl(0.0)),
+            (Fl(0.0), Fl(0.0)),
+            (Fl(0.0), Fl(0.0)),
+            (Fl(0.0), Fl(0.0)),
+            (Fl(0.0), Fl(0.0)),
+        ];
+        let samples = vec![vec![0u16; 8], vec![1000u16; 8], vec![500u16; 8]];
+        // pool index -> selector, for a node that will sit at pool position `len`
+        struct B {
+            nodes: Vec<NodeSpec>,
+        }
+        impl B {
+            fn len(&self) -> usize {
+                3 + self.nodes.len()
+            }
+            fn un(&mut self, o: UnOp, a: usize) -> usize {
+                let l = self.len();
+                self.nodes.push(NodeSpec::U(o, sel_for(a, l)));
+                l
+            }
+            fn bin(&mut self, o: BinOp, a: usize, b: usize) -> usize {
+                let l = self.len();
+                self.nodes.push(NodeSpec::B(o, sel_for(a, l), sel_for(b, l)));
+                l
+            }
+        }
+        let prelude = |b: &mut B| -> Vec<usize> {
+            let xx = b.un(UnOp::Square, 0); // [inf, inf]
+            let yy = b.un(UnOp::Square, 1); // [0, inf]
+            let hn1 = b.bin(BinOp::Sub, xx, yy); // [NaN, inf] (JIT)
+            let hn2 = b.bin(BinOp::Sub, yy, xx); // [-inf, NaN] (JIT)
+            let ninf = b.un(UnOp::Neg, xx); // [-inf, -inf]
+            let yyy = b.bin(BinOp::Mul, yy, 1); // [-inf, inf]
+            let nan = b.bin(BinOp::Sub, xx, xx); // NaN
+            vec![xx, yy, hn1, hn2, ninf, yyy, nan]
+        };
+        // unary opcodes
+        {
+            let mut b = B { nodes: vec![] };
+            let sp = prelude(&mut b);
+            for o in ALL_UN {
+                for s in &sp {
+                    b.un(o, *s);
+                }
+            }
+            cases.push(Case::Eval {
+                dag: DagSpec { nvars: 3, nodes: b.nodes },
+                outs: None,
+                boxes: boxes.clone(),
+                samples: samples.clone(),
+            });
+        }
+        // binary opcodes: special x ordinary, ordinary x special, special x special
+        for o in ALL_BIN {
+            let mut b = B { nodes: vec![] };
+            let sp = prelude(&mut b);
+            for s in &sp {
+                b.bin(o, *s, 2);
+                b.bin(o, 2, *s);
+                b.bin(o, *s, 1);
+                b.bin(o, 1, *s);
+                for t in &sp {
+                    b.bin(o, *s, *t);
+                }
+            }
+            cases.push(Case::Eval {
+                dag: DagSpec { nvars: 3, nodes: b.nodes },
+                outs: None,
+                boxes: boxes.clone(),
+                samples: samples.clone(),
+            });
+        }
+        cases
+    }
+
     fn check(case: &Case, cx: &mut Cx) -> CheckResult {
         match case {
             Case::Eval {
